@@ -664,7 +664,54 @@ def heal (env : Env J S C) (cfg : Cfg) (st : Stats) (decay : Rat) (maxRetries : 
     W (Call J S C) (Stats × HealOut S C) :=
   healFrom env cfg decay gen (maxRetries + 1) 0 st []
 
+/-- The loop over an instance WITH callbacks (`self.chaperone.fold_enhanced` is `foldXH`): the co-chaperone registered
+    for the loop's schema preprocesses every generated text, `on_misfold` is invoked for every misfolded attempt, and —
+    `heal` has no `try` — an exception a callback raises leaves `heal` (counters, callbacks invoked and library calls
+    made so far are kept).  `hs` / `tr` accumulate the callbacks invoked and the library calls made. -/
+def healHFrom (env : Env J S C) (hk : Hooks S C) (cfg : Cfg) (decay : Rat) (gen : Nat → Text) :
+    Nat → Nat → Stats → List HealAtt → List (HookCall S C) → Tr J S C → HOut J S C (HealOut S C)
+  | 0, _, st, atts, hs, tr => ⟨st, hs, tr, .ok ⟨.degraded, none, atts, 0, true⟩⟩
+  | fuel + 1, k, st, atts, hs, tr =>
+    match foldXH env hk cfg st (gen k) [] with
+    | ⟨st1, hs1, tr1, .raise e⟩ => ⟨st1, hs ++ hs1, tr ++ tr1, .raise e⟩
+    | ⟨st1, hs1, tr1, .ok r⟩ =>
+      if r.valid then
+        ⟨st1, hs ++ hs1, tr ++ tr1,
+          .ok ⟨if k = 0 then .validFirstTry else .healed,
+               some ⟨r.valid, r.struct, r.raw, r.err, r.attempts,
+                     ratMin r.confidence (healCeiling decay k), r.coercions, r.strategyUsed⟩,
+               atts ++ [⟨k, true, healCeiling decay k⟩],
+               ratMin r.confidence (healCeiling decay k), false⟩⟩
+      else healHFrom env hk cfg decay gen fuel (k + 1) st1 (atts ++ [⟨k, false, 0⟩]) (hs ++ hs1) (tr ++ tr1)
+
+/-- `ChaperoneLoop.heal` on an instance with callbacks -/
+def healH (env : Env J S C) (hk : Hooks S C) (cfg : Cfg) (st : Stats) (decay : Rat) (maxRetries : Nat)
+    (gen : Nat → Text) : HOut J S C (HealOut S C) :=
+  healHFrom env hk cfg decay gen (maxRetries + 1) 0 st [] [] []
+
 end
+
+/-! ### the library's own wrappers around a Chaperone
+
+`ChaperoneLoop(generator, chaperone, schema, …)` is a dataclass without `__post_init__`: constructing it stores its
+arguments and does not touch the Chaperone (the extractor probes this on every run: `Gen.ChaperoneTables.loopCtorTouches`).
+`heal` reaches the Chaperone through `fold_enhanced` only (`Gen.ChaperoneTables.healUses`), so what a wrapped instance
+keeps from a healing run is its counters.  An instance is what a fold depends on: the strategy list in force, the
+callbacks, and the counters. -/
+
+/-- one Chaperone as `fold` / `fold_enhanced` see it -/
+structure HInst (S C : Type) where
+  cfg : Cfg
+  hooks : Hooks S C
+  stats : Stats
+
+/-- `ChaperoneLoop(generator=…, chaperone=i, schema=…)` — the instance afterwards -/
+def HInst.wrapInLoop {S C : Type} (i : HInst S C) : HInst S C := i
+
+/-- `ChaperoneLoop(…, chaperone=i, …).heal(prompt)` — the instance afterwards: the counters moved, nothing else -/
+def HInst.afterHeal {J S C : Type} (env : Env J S C) (i : HInst S C) (decay : Rat) (maxRetries : Nat) (gen : Nat → Text) :
+    HInst S C :=
+  ⟨i.cfg, i.hooks, (healH env i.hooks i.cfg i.stats decay maxRetries gen).stats⟩
 
 /-! ### several Chaperone instances alive at once -/
 
